@@ -518,6 +518,8 @@ SHARDED_GEN = True
 
 
 def gen_cases(tier, seed, shard, nshards):
+    if shard == 0:
+        yield {"kind": "suite"}
     yield from tok_strings(tier, seed, shard, nshards)
     ndocs = 3000 if tier == "quick" else 60000
     per = 50
@@ -542,6 +544,19 @@ def run_case(case):
         run_doc(case, res)
     elif k == "growth":
         run_growth(case, res)
+    elif k == "suite":
+        rep = common.run_suite_with_monitors()
+        if rep is None:
+            res.count("suite_skipped_no_tests")
+        elif "error" in rep:
+            res.violate("suite-run-failed", "the repository suite could not be run under the monitor: %s" % rep["error"])
+        else:
+            res.evaluations += rep["parses_returned"]
+            res.count("suite_parses_monitored", rep["parses_returned"])
+            res.count("suite_steps_checked", rep["steps"])
+            for p in rep["lexer_problems"]:
+                res.violate("suite-" + p["kind"], "while the repository's own tests ran: %s (source %r)" % (p["detail"], p.get("source")))
+            res.sample = {"kind": "suite", "parses": rep["parses_returned"], "steps": rep["steps"], "pytest": rep.get("pytest_tail")}
     elif k == "source":
         check_source(case["source"], res)
     elif k == "docsource":
